@@ -87,6 +87,173 @@ class Tr:
         _fail(self.rel, n, f"untranslatable guard expression: {u}")
 
 
+# ------------------------------------------------------------------------------------------------
+# semantic layer: a status guard is a boolean function on a FINITE domain (the members of WorkflowStatus, or pairs of
+# them).  Its truth table is computed from the AST by the evaluator below; when the table equals the table recorded
+# with the reference copy (coq/gen_ref/Gen_Guards.tables.json, written by --save-ref on the unchanged tree) the
+# reference definition is emitted VERBATIM: a behaviour-preserving rewrite of a guard (`x != A` for `x not in {A}`,
+# a hoisted constant set, `x == A or x == B` for `x in (A, B)`, a renamed local) yields the same Gen_Guards.v.  The
+# equality is decided by exhaustive enumeration of the domain - it is a proof, not a sample.  A table that differs is a
+# semantic change: the new guard is emitted as translated and the proofs / the correspondence judge it.
+# ------------------------------------------------------------------------------------------------
+
+TABLES: dict = {}          # name -> {"vars": n, "true": [...]}  (filled by gen_guards; saved with the reference copy)
+
+
+def _status_model():
+    rel = "models/status.py"
+    mod = _parse(rel)
+    cls = _find_class(mod, "WorkflowStatus", rel)
+    from harness.translate import _enum_members, _status_set, _find_assign
+    members, comp, halt = [], set(), set()
+    for nm, val in _enum_members(cls, rel):
+        if not (isinstance(val, ast.Tuple) and len(val.elts) == 3 and all(isinstance(e, ast.Constant) for e in val.elts)):
+            _fail(rel, val, "status member is not a (name, complete, halt) constant tuple")
+        members.append(nm)
+        if val.elts[1].value:
+            comp.add(nm)
+        if val.elts[2].value:
+            halt.add(nm)
+    sets = {}
+    for py in ("COMPLETED_STATUSES", "_SUCCESSFUL_STATUSES", "_FAILURE_STATUSES", "CONTINUABLE_STATUSES", "HALT_STATUSES", "ACTIVE_STATUSES"):
+        sets[py] = set(_status_set(_find_assign(mod, py, rel), rel))
+    props = {"is_complete": comp, "is_halt": halt, "is_successful": sets["_SUCCESSFUL_STATUSES"], "is_failure": sets["_FAILURE_STATUSES"]}
+    return members, sets, props
+
+
+class Ev:
+    """evaluate a guard test under a valuation of its status expressions"""
+
+    def __init__(self, rel, valuation, local_defs, model):
+        self.rel, self.val, self.local_defs = rel, valuation, local_defs or {}
+        self.members, self.sets, self.props = model
+        self.consts = {}
+        for n in _parse(rel).body:        # module-level constants (a hoisted set of statuses)
+            if isinstance(n, ast.Assign) and len(n.targets) == 1 and isinstance(n.targets[0], ast.Name):
+                self.consts[n.targets[0].id] = n.value
+            elif isinstance(n, ast.AnnAssign) and isinstance(n.target, ast.Name) and n.value is not None:
+                self.consts[n.target.id] = n.value
+
+    def value(self, n, depth=0):
+        if depth > 8:
+            _fail(self.rel, n, "guard expression nests too deeply")
+        u = ast.unparse(n)
+        if u in self.val:
+            return ("status", self.val[u])
+        if isinstance(n, ast.Attribute) and isinstance(n.value, ast.Name) and n.value.id == "WorkflowStatus":
+            if n.attr not in self.members:
+                _fail(self.rel, n, f"unknown status {n.attr}")
+            return ("status", n.attr)
+        if isinstance(n, ast.Constant) and isinstance(n.value, bool):
+            return ("bool", n.value)
+        if isinstance(n, ast.Name):
+            if n.id in self.local_defs:
+                return self.value(self.local_defs[n.id], depth + 1)
+            if n.id in self.sets:
+                return ("set", frozenset(self.sets[n.id]))
+            if n.id in self.consts:
+                return self.value(self.consts[n.id], depth + 1)
+            _fail(self.rel, n, f"free name {n.id} in a status guard")
+        if isinstance(n, ast.Call) and isinstance(n.func, ast.Name) and n.func.id in ("frozenset", "set", "tuple") and len(n.args) <= 1:
+            return ("set", frozenset()) if not n.args else self.value(n.args[0], depth + 1)
+        if isinstance(n, (ast.Set, ast.Tuple, ast.List)):
+            out = set()
+            for e in n.elts:
+                k, v = self.value(e, depth + 1)
+                if k != "status":
+                    _fail(self.rel, e, "non-status element in a status container")
+                out.add(v)
+            return ("set", frozenset(out))
+        if isinstance(n, ast.Attribute) and n.attr in self.props:
+            k, v = self.value(n.value, depth + 1)
+            if k != "status":
+                _fail(self.rel, n, f".{n.attr} of a non-status")
+            return ("bool", v in self.props[n.attr])
+        if isinstance(n, ast.UnaryOp) and isinstance(n.op, ast.Not):
+            return ("bool", not self.truth(n.operand, depth + 1))
+        if isinstance(n, ast.BoolOp):
+            vs = [self.truth(v, depth + 1) for v in n.values]
+            return ("bool", all(vs) if isinstance(n.op, ast.And) else any(vs))
+        if isinstance(n, ast.Compare) and len(n.ops) == 1:
+            op = n.ops[0]
+            lk, lv = self.value(n.left, depth + 1)
+            rk, rv = self.value(n.comparators[0], depth + 1)
+            if isinstance(op, (ast.In, ast.NotIn)) and lk == "status" and rk == "set":
+                return ("bool", (lv in rv) == isinstance(op, ast.In))
+            if isinstance(op, (ast.Eq, ast.Is, ast.NotEq, ast.IsNot)) and lk == rk and lk in ("status", "bool"):
+                return ("bool", (lv == rv) == isinstance(op, (ast.Eq, ast.Is)))
+        _fail(self.rel, n, f"status guard outside the evaluator's fragment: {u}")
+
+    def truth(self, n, depth=0):
+        k, v = self.value(n, depth)
+        if k != "bool":
+            _fail(self.rel, n, "guard is not boolean")
+        return v
+
+
+def _table(rel, test, var_exprs, local_defs, model):
+    """truth table of `test` over all valuations of var_exprs (1 or 2 status expressions): the list of true points"""
+    members = model[0]
+    pts = []
+    if len(var_exprs) == 1:
+        for a in members:
+            if Ev(rel, {var_exprs[0]: a}, local_defs, model).truth(test):
+                pts.append(a)
+    else:
+        for a in members:
+            for b in members:
+                if Ev(rel, {var_exprs[0]: a, var_exprs[1]: b}, local_defs, model).truth(test):
+                    pts.append(a + "," + b)
+    return pts
+
+
+def _ref_guards():
+    """(tables, definition text by name) recorded with the reference copy; ({}, {}) when absent"""
+    import json
+    from harness import lib
+    try:
+        tables = json.loads((lib.COQ / "gen_ref" / "Gen_Guards.tables.json").read_text())
+        text = (lib.COQ / "gen_ref" / "Gen_Guards.v").read_text()
+    except Exception:
+        return {}, {}
+    defs = {}
+    for ln in text.splitlines():
+        if ln.startswith("Definition "):
+            defs[ln.split()[1]] = ln
+    return tables, defs
+
+
+def _status_exprs(test, base_hint):
+    """distinct `<name>.status` expressions in the test whose base name contains base_hint (a renamed local is tolerated)"""
+    out = []
+    for x in ast.walk(test):
+        if isinstance(x, ast.Attribute) and x.attr == "status" and isinstance(x.value, ast.Name) and base_hint in x.value.id.lower():
+            u = ast.unparse(x)
+            if u not in out:
+                out.append(u)
+    return out
+
+
+def _find_status_ifs(rel, fn_path, base_hint, early_only=True):
+    """the `if`s (source order) of a function whose test reads `<...base_hint...>.status`, optionally only those whose
+    branch returns"""
+    mod = _parse(rel)
+    node = mod
+    for name in fn_path:
+        found = None
+        for n in ast.walk(node):
+            if isinstance(n, (ast.FunctionDef, ast.ClassDef)) and n.name == name:
+                found = n
+                break
+        if found is None:
+            raise TranslateError(f"{rel}: {'.'.join(fn_path)} not found")
+        node = found
+    ifs = [n for n in ast.walk(node) if isinstance(n, ast.If) and _status_exprs(n.test, base_hint)
+           and (not early_only or _returns_early(n))]
+    ifs.sort(key=lambda n: (n.lineno, n.col_offset))
+    return ifs
+
+
 def _find_if(rel, fn_path, contains, nth=0):
     """first `if` (source order) inside the function whose test mentions `contains`"""
     mod = _parse(rel)
@@ -118,24 +285,71 @@ def gen_guards() -> str:
     out = [HEADER.format(src="handlers/*.py (status and arithmetic guards)"),
            "From Stab.gen Require Import Gen_Status.\nOpen Scope bool_scope.\n"]
 
-    def emit_ignore_guard(name, rel, path, contains, var_expr, doc):
-        """handlers of the form `if <test>: ...; return` — the handler PROCEEDS iff test is false"""
-        n = _find_if(rel, path, contains)
-        if not _returns_early(n):
-            _fail(rel, n, f"{name}: guarded branch does not return (handler no longer ignores the message)")
-        t = Tr(rel, {var_expr: ("st", "status")}).term(n.test)
-        out.append(f"(* {rel}:{n.lineno}  `if {ast.unparse(n.test)}: ... return` — {doc} *)")
-        out.append(f"Definition {name} (st : status) : bool := negb {t}.\n")
+    model = _status_model()
+    ref_tables, ref_defs = _ref_guards()
+    TABLES.clear()
 
-    emit_ignore_guard("start_task_guard", "handlers/start_task.py", ["StartTaskHandler", "_handle_with_retry"],
-                      "task_model.status", "task_model.status", "StartTask proceeds only from this status")
-    emit_ignore_guard("run_task_guard", "handlers/run_task/handler.py", ["RunTaskHandler", "handle"],
-                      "task_model.status", "task_model.status", "RunTask executes only in this status")
+    def emit_status_guard(name, rel, n, var_exprs, coq_vars, negate, doc, local_defs=None):
+        """n = the located `if`; the Coq guard is the test (negated when the handler PROCEEDS iff the test is false)"""
+        test = n.test
+        pts = err = text = None
+        try:
+            pts = _table(rel, test, var_exprs, local_defs, model)
+            TABLES[name] = {"vars": len(var_exprs), "true": pts, "negated": negate}
+        except TranslateError:
+            pts = None
+        try:
+            t = Tr(rel, {e: (v, "status") for e, v in zip(var_exprs, coq_vars)}, local_defs).term(test)
+            text = f"Definition {name} ({' '.join(coq_vars)} : status) : bool := " + (f"negb {t}." if negate else f"{t}.")
+        except TranslateError as e:
+            err = e
+        ref = ref_tables.get(name)
+        note = ""
+        if pts is not None and ref and ref.get("true") == pts and ref.get("vars") == len(var_exprs) and ref.get("negated") == negate \
+                and name in ref_defs:
+            chosen = ref_defs[name]
+            if chosen != text:
+                note = " [equal to the reference guard on the whole status domain (exhaustive): reference definition kept]"
+        elif text is not None:
+            chosen = text
+        elif pts is not None:
+            if len(coq_vars) == 1:
+                body = " || ".join(f"status_eqb {coq_vars[0]} {a}" for a in pts) or "false"
+            else:
+                body = " || ".join("(status_eqb %s %s && status_eqb %s %s)" % (coq_vars[0], q.split(",")[0], coq_vars[1], q.split(",")[1])
+                                   for q in pts) or "false"
+            chosen = f"Definition {name} ({' '.join(coq_vars)} : status) : bool := " + (f"negb ({body})." if negate else f"({body}).")
+            note = " [truth table over the whole status domain]"
+        else:
+            raise err
+        out.append(f"(* {rel}:{n.lineno}  `if {ast.unparse(test)}` — {doc}{note} *)")
+        out.append(chosen + "\n")
+
+    def one_status_expr(rel, n, hint):
+        es = _status_exprs(n.test, hint)
+        if len(es) != 1:
+            _fail(rel, n, f"guard reads {es}, expected one `<{hint}…>.status` expression")
+        return es[0]
+
+    def first_ignore_guard(name, rel, path, hint, doc):
+        """handlers of the form `if <test>: ...; return` — the handler PROCEEDS iff test is false"""
+        ifs = _find_status_ifs(rel, path, hint)
+        if not ifs:
+            raise TranslateError(f"{rel}: no early-returning `if` on a {hint} status in {'.'.join(path)}")
+        n = ifs[0]
+        emit_status_guard(name, rel, n, [one_status_expr(rel, n, hint)], ["st"], True, doc)
+        return n
+
+    first_ignore_guard("start_task_guard", "handlers/start_task.py", ["StartTaskHandler", "_handle_with_retry"], "task",
+                       "StartTask proceeds only from this status")
+    first_ignore_guard("run_task_guard", "handlers/run_task/handler.py", ["RunTaskHandler", "handle"], "task",
+                       "RunTask executes only in this status")
     # CompleteTask: the guard may mention the message status (the SKIPPED-by-StartTask exception)
     rel = "handlers/complete_task.py"
-    n = _find_if(rel, ["CompleteTaskHandler", "_handle_with_retry"], "task.status")
-    if not _returns_early(n):
-        _fail(rel, n, "complete_task_guard: guarded branch does not return")
+    ifs = _find_status_ifs(rel, ["CompleteTaskHandler", "_handle_with_retry"], "task")
+    if not ifs:
+        raise TranslateError(f"{rel}: no early-returning `if` on the task status in CompleteTaskHandler._handle_with_retry")
+    n = ifs[0]
     fn = _find_func(_find_class(_parse(rel), "CompleteTaskHandler", rel).body, "_handle_with_retry", rel)
     local_defs = {}
     for x in ast.walk(fn):
@@ -145,35 +359,34 @@ def gen_guards() -> str:
             else:
                 local_defs[x.targets[0].id] = x.value
     local_defs = {k: v for k, v in local_defs.items() if v is not None}
-    t = Tr(rel, {"task.status": ("st", "status"), "message.status": ("ms", "status")}, local_defs).term(n.test)
-    out.append(f"(* {rel}:{n.lineno} `if {ast.unparse(n.test)}: ... return` — CompleteTask records a result only when this holds *)")
-    out.append(f"Definition complete_task_guard (st ms : status) : bool := negb {t}.\n")
-    emit_ignore_guard("skip_stage_guard", "handlers/skip_stage.py", ["SkipStageHandler", "_handle_with_retry"],
-                      "stage.status", "stage.status", "SkipStage applies only in this status")
-    emit_ignore_guard("cancel_stage_guard", "handlers/cancel_stage.py", ["CancelStageHandler", "_handle_with_retry"],
-                      "stage.status", "stage.status", "CancelStage applies unless ...")
-    # CompleteStage: the second status test (`not in {RUNNING}`) is the completion guard
-    n = _find_if("handlers/complete_stage/handler.py", ["CompleteStageHandler", "_handle_with_retry"], "stage.status not in")
-    if not _returns_early(n):
-        _fail("handlers/complete_stage/handler.py", n, "complete_stage_guard: branch does not return")
-    t = Tr("handlers/complete_stage/handler.py", {"stage.status": ("st", "status")}).term(n.test)
-    out.append(f"(* handlers/complete_stage/handler.py:{n.lineno} `if {ast.unparse(n.test)}` *)")
-    out.append(f"Definition complete_stage_guard (st : status) : bool := negb {t}.\n")
-    n0 = _find_if("handlers/complete_stage/handler.py", ["CompleteStageHandler", "_handle_with_retry"], "stage.status == WorkflowStatus.NOT_STARTED")
-    if not _returns_early(n0) or n0.lineno > n.lineno:
-        _fail("handlers/complete_stage/handler.py", n0, "stale-CompleteStage (NOT_STARTED) guard missing or misplaced")
+    emit_status_guard("complete_task_guard", rel, n, [one_status_expr(rel, n, "task"), "message.status"], ["st", "ms"], True,
+                      "CompleteTask records a result only when this holds", local_defs)
+    first_ignore_guard("skip_stage_guard", "handlers/skip_stage.py", ["SkipStageHandler", "_handle_with_retry"], "stage",
+                       "SkipStage applies only in this status")
+    first_ignore_guard("cancel_stage_guard", "handlers/cancel_stage.py", ["CancelStageHandler", "_handle_with_retry"], "stage",
+                       "CancelStage applies unless ...")
+    # CompleteStage: the first early-returning status test is the stale-message guard (exactly NOT_STARTED), the second
+    # one is the completion guard
+    rel = "handlers/complete_stage/handler.py"
+    ifs = _find_status_ifs(rel, ["CompleteStageHandler", "_handle_with_retry"], "stage")
+    if len(ifs) < 2:
+        raise TranslateError(f"{rel}: CompleteStageHandler._handle_with_retry has {len(ifs)} early-returning status tests, expected the stale-message guard and the completion guard")
+    n0, n = ifs[0], ifs[1]
+    if _table(rel, n0.test, [one_status_expr(rel, n0, "stage")], None, model) != ["NOT_STARTED"]:
+        _fail(rel, n0, "stale-CompleteStage (NOT_STARTED) guard missing or misplaced")
+    emit_status_guard("complete_stage_guard", rel, n, [one_status_expr(rel, n, "stage")], ["st"], True, "the completion guard")
     # StartStage claim precondition: `if stage.status != WorkflowStatus.NOT_STARTED:` in _start_if_ready
-    n = _find_if("handlers/start_stage/handler.py", ["StartStageHandler", "_start_if_ready"], "stage.status")
-    t = Tr("handlers/start_stage/handler.py", {"stage.status": ("st", "status")}).term(n.test)
-    out.append(f"(* handlers/start_stage/handler.py:{n.lineno} `if {ast.unparse(n.test)}` — already-processed test *)")
-    out.append(f"Definition start_stage_fresh (st : status) : bool := negb {t}.\n")
+    rel = "handlers/start_stage/handler.py"
+    ifs = _find_status_ifs(rel, ["StartStageHandler", "_start_if_ready"], "stage", early_only=False)
+    if not ifs:
+        raise TranslateError(f"{rel}: no status test in _start_if_ready")
+    emit_status_guard("start_stage_fresh", rel, ifs[0], [one_status_expr(rel, ifs[0], "stage")], ["st"], True, "already-processed test")
     # late/duplicate StartStage for a stage that already left NOT_STARTED (handle, NOT_READY path)
-    n = _find_if("handlers/start_stage/handler.py", ["StartStageHandler", "handle"], "stage.status")
-    if not _returns_early(n):
-        _fail("handlers/start_stage/handler.py", n, "late-StartStage guard does not return")
-    t = Tr("handlers/start_stage/handler.py", {"stage.status": ("st", "status")}).term(n.test)
-    out.append(f"(* handlers/start_stage/handler.py:{n.lineno} `if {ast.unparse(n.test)}: return` before the wait/retry path *)")
-    out.append(f"Definition start_stage_late (st : status) : bool := {t}.\n")
+    ifs = _find_status_ifs(rel, ["StartStageHandler", "handle"], "stage")
+    if not ifs:
+        raise TranslateError(f"{rel}: late-StartStage guard (early return on the stage status in handle) not found")
+    emit_status_guard("start_stage_late", rel, ifs[0], [one_status_expr(rel, ifs[0], "stage")], ["st"], False,
+                      "`return` before the wait/retry path")
     # the claim CAS phase
     src = ast.unparse(_parse("handlers/start_stage/handler.py"))
     if "txn.store_stage(stage, expected_phase=claim_expected_phase)" not in src or "claim_expected_phase = 'NOT_STARTED'" not in src:
